@@ -54,22 +54,24 @@ Proof.
     intros it Hit. unfold fated_as. rewrite (pass_fate_cb cfg cfg' it H). apply F; exact Hit.
 Qed.
 
-(* what a reassignment of the threshold leaves alone *)
+(* what a reassignment of the threshold / of the retention period leaves alone *)
 Definition same_shape (cfg cfg' : config) : Prop :=
-  max_queue cfg' = max_queue cfg /\ retention cfg' = retention cfg /\ has_cb cfg' = has_cb cfg.
+  max_queue cfg' = max_queue cfg /\ has_cb cfg' = has_cb cfg.
 
 Lemma rstep_shape : forall cfg cs o, same_shape cfg (fst (fst (rstep cfg cs o))).
 Proof.
-  intros cfg cs o. destruct o as [o|t]; cbn [rstep].
+  intros cfg cs o. destruct o as [o|t|rt]; cbn [rstep].
   - destruct (cstep cfg cs o) as [cs' r]. cbn [fst]. repeat split.
   - cbn [fst set_thr]. repeat split.
+  - cbn [fst set_ret]. repeat split.
 Qed.
 
 Lemma rstep_inv : forall cfg cs o,
   CInv cfg cs -> CInv (fst (fst (rstep cfg cs o))) (snd (fst (rstep cfg cs o))).
 Proof.
-  intros cfg cs o I. destruct o as [o|t]; cbn [rstep].
+  intros cfg cs o I. destruct o as [o|t|rt]; cbn [rstep].
   - pose proof (cstep_inv cfg cs o I) as H. destruct (cstep cfg cs o) as [cs' r]. exact H.
+  - cbn [fst snd]. eapply CInv_cb; [|exact I]. reflexivity.
   - cbn [fst snd]. eapply CInv_cb; [|exact I]. reflexivity.
 Qed.
 
@@ -77,8 +79,9 @@ Lemma rstep_bounded : forall cfg cs o,
   2 <= max_queue cfg -> qlen (c_base cs) <= max_queue cfg ->
   qlen (c_base (snd (fst (rstep cfg cs o)))) <= max_queue cfg.
 Proof.
-  intros cfg cs o Hmax Hq. destruct o as [o|t]; cbn [rstep].
+  intros cfg cs o Hmax Hq. destruct o as [o|t|rt]; cbn [rstep].
   - pose proof (cstep_bounded cfg cs o Hmax Hq) as H. destruct (cstep cfg cs o) as [cs' r]. exact H.
+  - exact Hq.
   - exact Hq.
 Qed.
 
@@ -91,10 +94,10 @@ Proof.
   induction ops as [|o ops IH]; intros cfg cs I; cbv zeta.
   - cbn. split; [exact I|split; [repeat split|auto]].
   - unfold rrun_from in *. cbn [fold_left fst snd].
-    pose proof (rstep_inv cfg cs o I) as I1. pose proof (rstep_shape cfg cs o) as (S1 & S2 & S3).
+    pose proof (rstep_inv cfg cs o I) as I1. pose proof (rstep_shape cfg cs o) as (S1 & S3).
     pose proof (rstep_bounded cfg cs o) as B1.
     destruct (rstep cfg cs o) as [[cfg1 cs1] r]. cbn [fst snd] in *.
-    destruct (IH cfg1 cs1 I1) as (I2 & (T1 & T2 & T3) & B2). cbv zeta in *.
+    destruct (IH cfg1 cs1 I1) as (I2 & (T1 & T3) & B2). cbv zeta in *.
     split; [exact I2|split; [repeat split; congruence|]].
     intros Hmax Hq. rewrite <- S1. apply B2; rewrite S1; auto.
 Qed.
@@ -107,7 +110,7 @@ Proof.
   intros cfg ops. cbv zeta. unfold rrun.
   destruct (rrun_from_facts ops cfg cinit (cinit_inv cfg)) as (I & Sh & B). cbv zeta in *.
   split; [exact I|split; [|split; [exact Sh|]]].
-  - destruct Sh as (_ & _ & H). eapply CInv_cb; [|exact I]. symmetry. exact H.
+  - destruct Sh as (_ & H). eapply CInv_cb; [|exact I]. symmetry. exact H.
   - intros Hmax. apply B; [exact Hmax|]. unfold qlen; cbn. lia.
 Qed.
 
@@ -214,7 +217,7 @@ Lemma threads_queue_bounded : forall cfg pre progs sched,
 Proof.
   intros cfg pre progs sched Hmax. cbv zeta.
   destruct (threads_are_interleavings cfg pre progs sched) as [ops E]. cbv zeta in E. rewrite E.
-  destruct (rrun_facts cfg pre) as (_ & _ & (S1 & _ & _) & B). cbv zeta in *.
+  destruct (rrun_facts cfg pre) as (_ & _ & (S1 & _) & B). cbv zeta in *.
   rewrite <- S1. apply crun_from_bounded; rewrite S1; auto.
 Qed.
 
@@ -281,10 +284,13 @@ Proof.
   - pose proof (digest_queue cfg false k s) as Q.
     destruct (digest cfg false k s) as [s' r]. cbn [fst] in *. rewrite Q.
     pose proof (after_take_le k (queue s)). lia.
-  - unfold autophagy. cbn [fst queue].
+  - destruct (sweepable cfg s); [|cbn [fst]; lia].
+    unfold autophagy. cbn [fst queue].
     pose proof (filter_length_le (fresh cfg (now s)) (queue s)). lia.
   - cbn [fst set_now queue]. lia.
   - cbn [fst set_bin queue]. lia.
+  - apply ingest_qlen.
+  - cbn [fst]. lia.
 Qed.
 
 Lemma in_pass_find : forall ts i,
@@ -365,7 +371,7 @@ Proof.
     assert (NF : find_pass (Z.of_nat i) (c_open (t_cs ts)) = None).
     { unfold in_pass in P. destruct (find_pass (Z.of_nat i) (c_open (t_cs ts))); [discriminate|reflexivity]. }
     destruct o.
-    1-3, 5-7:
+    1-3, 5-9:
       match goal with |- context [catomic ?C ?O ?X] =>
         destruct (catomic_work C O X) as (Hr & Hq & Hf);
         destruct (catomic C O X) as [cs' r] end;
@@ -421,7 +427,7 @@ Lemma threads_inv : forall cfg pre progs sched,
   CInv cfg (t_cs (trun (fst st) (mkT (snd st) progs) sched)).
 Proof.
   intros cfg pre progs sched. cbv zeta.
-  destruct (rrun_facts cfg pre) as (I & _ & (_ & _ & H) & _). cbv zeta in *.
+  destruct (rrun_facts cfg pre) as (I & _ & (_ & H) & _). cbv zeta in *.
   eapply CInv_cb; [symmetry; exact H|]. apply trun_inv. exact I.
 Qed.
 
@@ -468,6 +474,87 @@ Proof.
   - intros i B. apply tstep_idle; assumption.
   - apply real_steps_bound; exact I0'.
   - apply work_zero_done with (cfg := cfg'); exact I.
+Qed.
+
+(* ---- error paths (Part 1f): a call of a thread that raises --------------- *)
+
+Lemma trun_snoc : forall cfg ts sched i,
+  trun cfg ts (sched ++ [i]) = fst (tstep cfg (trun cfg ts sched) i).
+Proof. intros cfg ts sched i. unfold trun. rewrite fold_left_app. reflexivity. Qed.
+
+Lemma catomic_raised : forall cfg o cs,
+  snd (catomic cfg o cs) = CRet RRaised -> fst (catomic cfg o cs) = cs.
+Proof.
+  intros cfg o cs H. unfold catomic in *.
+  pose proof (raising_call_proof cfg (c_base cs) o) as [_ R].
+  destruct (step cfg (c_base cs) o) as [s' r]. cbn [fst snd] in *.
+  inversion H; subst r. rewrite (R eq_refl). destruct cs; reflexivity.
+Qed.
+
+Lemma cbegin_not_raised : forall cfg p k cs, snd (cbegin cfg p k cs) <> CRet RRaised.
+Proof.
+  intros cfg p k cs. unfold cbegin. destruct (find_pass p (c_open cs)); [discriminate|].
+  destruct (to_process k (queue (c_base cs))); discriminate.
+Qed.
+
+Lemma cpstep_not_raised : forall cfg p cs, snd (cpstep cfg p cs) <> CRet RRaised.
+Proof.
+  intros cfg p cs. unfold cpstep. destruct (find_pass p (c_open cs)) as [ps|]; [|discriminate].
+  destruct (p_todo ps) as [|it rest]; [discriminate|].
+  destruct (digest_item cfg false it (c_base cs) (p_res ps)) as [s1 r1]. destruct rest; discriminate.
+Qed.
+
+(* the step of thread i raised: it was a whole call (digest(<not an integer>) or
+   autophagy() over a queue it cannot sweep), the object is exactly as it was,
+   and the thread has gone on to its next call *)
+Lemma tstep_raised : forall cfg ts i,
+  snd (tstep cfg ts i) = CRet RRaised ->
+  t_cs (fst (tstep cfg ts i)) = t_cs ts /\
+  exists o rest, nth i (t_progs ts) [] = o :: rest /\
+                 t_progs (fst (tstep cfg ts i)) = set_nth i rest (t_progs ts) /\
+                 (o = DigestBad \/ (o = Autophagy /\ sweepable cfg (c_base (t_cs ts)) = false)).
+Proof.
+  intros cfg ts i H. unfold tstep in *. destruct (in_pass ts i).
+  - exfalso. pose proof (cpstep_not_raised cfg (Z.of_nat i) (t_cs ts)) as N.
+    destruct (cpstep cfg (Z.of_nat i) (t_cs ts)) as [cs' r]. cbn [snd] in *. exact (N H).
+  - destruct (nth i (t_progs ts) []) as [|o rest] eqn:E; [discriminate|].
+    assert (K : forall k, o = DigestOp k -> False).
+    { intros k ->. pose proof (cbegin_not_raised cfg (Z.of_nat i) k (t_cs ts)) as N.
+      destruct (cbegin cfg (Z.of_nat i) k (t_cs ts)) as [cs' r]. cbn [snd] in *. exact (N H). }
+    assert (A : (let '(cs', r) := catomic cfg o (t_cs ts) in (mkT cs' (set_nth i rest (t_progs ts)), r)) =
+                (let '(cs', r) := match o with
+                                  | DigestOp k => cbegin cfg (Z.of_nat i) k (t_cs ts)
+                                  | _ => catomic cfg o (t_cs ts)
+                                  end in (mkT cs' (set_nth i rest (t_progs ts)), r))).
+    { destruct o; try reflexivity. exfalso. eapply K. reflexivity. }
+    rewrite <- A in *. clear A.
+    pose proof (catomic_raised cfg o (t_cs ts)) as C.
+    pose proof (raising_call_proof cfg (c_base (t_cs ts)) o) as [W _].
+    unfold catomic in *. destruct (step cfg (c_base (t_cs ts)) o) as [s' r]. cbn [fst snd] in *.
+    inversion H; subst r. split; [apply C; reflexivity|].
+    exists o, rest. split; [reflexivity|split; [reflexivity|]]. apply W. reflexivity.
+Qed.
+
+Definition threads_raising_stmt (cfg : config) (pre : list rop) (progs : list (list op)) (sched : list nat) (i : nat) : Prop :=
+  let st := rrun cfg pre in
+  let cfg' := fst st in
+  let ts := trun cfg' (mkT (snd st) progs) sched in
+  let ts' := fst (tstep cfg' ts i) in
+  snd (tstep cfg' ts i) = CRet RRaised ->
+    t_cs ts' = t_cs ts /\
+    (exists o rest, nth i (t_progs ts) [] = o :: rest /\ t_progs ts' = set_nth i rest (t_progs ts) /\
+                    (o = DigestBad \/ (o = Autophagy /\ sweepable cfg' (c_base (t_cs ts)) = false))) /\
+    (forall j, busy ts' j = true ->
+       snd (tstep cfg' ts' j) <> CBad /\ (work (fst (tstep cfg' ts' j)) < work ts')%nat).
+
+Lemma threads_raising_proof : forall cfg pre progs sched i, threads_raising_stmt cfg pre progs sched i.
+Proof.
+  intros cfg pre progs sched i. unfold threads_raising_stmt. cbv zeta. intros H.
+  destruct (tstep_raised _ _ _ H) as [E X]. split; [exact E|split; [exact X|]].
+  intros j B.
+  pose proof (threads_return_proof cfg pre progs (sched ++ [i])) as T.
+  unfold threads_return_stmt in T. cbv zeta in T. rewrite trun_snoc in T.
+  destruct T as (T1 & _). apply T1. exact B.
 Qed.
 
 (* ====================================================================== *)
